@@ -257,4 +257,25 @@ theorem C23_gen_field_counts :
        ("cr.ProposalState", 16), ("cr.DepositInfo", 3), ("dpos.Producer", 23),
        ("mempool.txPoolCheckpoint", 5), ("wallet.CoinsCheckPoint", 4)] := by decide
 
+/-- The restore layer of the DPoS checkpoint loses nothing (regenerated): `Arbiters.recoverFromCheckPoints`
+    (run by `OnInit` after `Manager.Restore` has deserialized the file) reads, and `initFromArbitrators` (run by
+    `Snapshot` / `NewCheckpoint`) writes, every field of `CheckPoint` except the checkpoint's own height, the
+    back pointer, and `CurrentOnDutyCRCArbitersMap` (a field that is serialized but never set or used: the
+    arbiters have no counterpart).  The `ckpt dpos.CheckPoint` ops run both directions on the real code. -/
+theorem C23_gen_restore_layer :
+    without Gen.C23.restoreLayer.1 ["Height", "arbitrators", "CurrentOnDutyCRCArbitersMap"] = Gen.C23.restoreLayer.2.1 ∧
+    Gen.C23.restoreLayer.2.1 = Gen.C23.restoreLayer.2.2 := by decide
+
+open ElaVerif.WalletCont in
+/-- The file a restart loads is the state AT its label: when a process is stopped after any `k` blocks, the
+    default checkpoint file labelled `h` holds the wallet state after the blocks up to height `h` — the
+    manager hands the asynchronous writer a snapshot taken at the save height, never the live object that
+    later blocks keep changing.  (The `wcont` ops check this on the real Manager with a registered checkpoint
+    that lets the next block in whenever the writer is given the live object.) -/
+theorem C23_wallet_default_file_state (bs : List Block) (k : Nat)
+    (hs : bs.Pairwise (fun a b => a.h < b.h)) (hpos : ∀ b ∈ bs, 0 < b.h)
+    (h : Nat) (s : WSt) (hd : (run .fresh (bs.take k)).dflt = some (h, s)) :
+    s = (bs.filter (fun b => decide (b.h ≤ h))).foldl applyBlock .init :=
+  default_file_state bs k hs hpos h s hd
+
 end ElaVerif.C23
